@@ -33,6 +33,9 @@
                polls anything again: [wedged].  Reached e.g. when a -1 that was in flight when
                SIGINT arrived brings the count to zero and the queued 0 is delivered next, or when
                a cancel request (+1, -1) follows the zero.
+               (The SIGINT arm has the same shape: [drain_tx.send(0).await] on a FULL drain channel —
+               2048 unreceived +1/-1, e.g. a burst of connections or cancel requests — waits for a
+               receiver that is the suspended loop itself: wedged before the timer task exists.)
       337-339  after the loop the runtime is dropped and the process exits               = [exited]
     src/client.rs:131-333 [client_entrypoint]: startup; for a client that is not admin
                           [drain.send(1)] after a successful startup, [handle()],
@@ -60,8 +63,11 @@
 
     Env (ASSUMED, listed in the trusted base): tokio mpsc is FIFO per channel and [send] on a full
     bounded channel waits; tokio broadcast delivers a value to exactly the receivers that exist at
-    [send]; [select!] may pick any ready arm; a panicking task is isolated.  The drain channel's
-    bound of 2048 is not modelled (the queue is unbounded here). *)
+    [send]; [select!] may pick any ready arm; a panicking task is isolated.  The drain channel's bound
+    ([qcap], 2048) matters for the one sender that is also the receiver: the SIGINT arm's
+    [drain_tx.send(0).await].  Client tasks that find the channel full merely wait (their event happens
+    later: a lag the interleaving semantics already covers), so their sends are not bounded here; a
+    queue of [qcap] or more entries stands for "full, with senders waiting". *)
 From Coq Require Import ZArith List Bool Arith Lia.
 Import ListNotations.
 Open Scope Z_scope.
@@ -104,12 +110,14 @@ Record state : Type := mkS {
   queue : list Z;              (* drain channel: in-flight +1 / -1 / 0, oldest first *)
   clients : list client;       (* client id = position *)
   tzero : bool;                (* config: shutdown_timeout = 0 *)
+  qcap : nat;                  (* capacity of the drain channel (2048 in main.rs:206) *)
   leaked : Z;                  (* ghost: counted clients whose task panicked *)
   zero_sends : nat;            (* ghost: exit messages sent by the drain arm *)
-  log : list obs }.            (* newest first *)
+  log : list obs;              (* newest first *)
+  mid_sigint : bool }.         (* the main loop is inside the SIGINT arm, between the broadcast and [drain_tx.send(0)] *)
 
-Definition init (tz : bool) : state :=
-  mkS false 0 TNone None false None [] [] tz 0 0 [].
+Definition init (tz : bool) (cap : nat) : state :=
+  mkS false 0 TNone None false None [] [] tz cap 0 0 [] false.
 
 Inductive event : Type :=
 | Sigint | Sigterm
@@ -118,7 +126,8 @@ Inductive event : Type :=
 | TxnStart (c : nat) | Stmt (c : nat) | TxnEnd (c : nat)
 | Poll (c : nat)
 | Leave (c : nat) (h : how)
-| DrainDeliver | TimerFire | ExitDeliver.
+| DrainDeliver | TimerFire | ExitDeliver
+| SigintQ.                      (* second half of the SIGINT arm: queue the 0, spawn the timer task *)
 
 (** ** Helpers *)
 
@@ -138,19 +147,19 @@ Definition set_pend (c : client) (b : bool) : client :=
 
 Definition with_clients (st : state) (cs : list client) : state :=
   mkS (admin_only st) (total st) (tmr st) (exit_q st) (wedged st) (exited st) (queue st) cs
-      (tzero st) (leaked st) (zero_sends st) (log st).
+      (tzero st) (qcap st) (leaked st) (zero_sends st) (log st) (mid_sigint st).
 Definition with_queue (st : state) (q : list Z) : state :=
   mkS (admin_only st) (total st) (tmr st) (exit_q st) (wedged st) (exited st) q (clients st)
-      (tzero st) (leaked st) (zero_sends st) (log st).
+      (tzero st) (qcap st) (leaked st) (zero_sends st) (log st) (mid_sigint st).
 Definition with_log (st : state) (o : obs) : state :=
   mkS (admin_only st) (total st) (tmr st) (exit_q st) (wedged st) (exited st) (queue st) (clients st)
-      (tzero st) (leaked st) (zero_sends st) (o :: log st).
+      (tzero st) (qcap st) (leaked st) (zero_sends st) (o :: log st) (mid_sigint st).
 Definition with_leak (st : state) : state :=
   mkS (admin_only st) (total st) (tmr st) (exit_q st) (wedged st) (exited st) (queue st) (clients st)
-      (tzero st) (leaked st + 1) (zero_sends st) (log st).
+      (tzero st) (qcap st) (leaked st + 1) (zero_sends st) (log st) (mid_sigint st).
 Definition with_exit (st : state) (x : cause) : state :=
   mkS (admin_only st) (total st) (tmr st) (exit_q st) (wedged st) (Some x) (queue st) (clients st)
-      (tzero st) (leaked st) (zero_sends st) (OExit x :: log st).
+      (tzero st) (qcap st) (leaked st) (zero_sends st) (OExit x :: log st) (mid_sigint st).
 
 Definition send (st : state) (m : Z) : state := with_queue st (queue st ++ [m]).
 Definition put (st : state) (i : nat) (c : client) : state := with_clients st (upd_nth (clients st) i c).
@@ -170,17 +179,21 @@ Definition depart (st : state) (i : nat) (c : client) (h : how) : state :=
 
 (** ** The step function.  [None] = the event is not enabled in this state. *)
 
-Definition main_ok (st : state) : bool := negb (wedged st).
+(** the main loop is at its [select!]: not suspended for ever, not in the middle of the SIGINT arm *)
+Definition main_ok (st : state) : bool := negb (wedged st) && negb (mid_sigint st).
 
 Definition step (st : state) (e : event) : option state :=
   match exited st with Some _ => None | None =>
   match e with
   | Sigint =>
+      (* main.rs:226-237: [admin_only = true; shutdown_tx.send(())].  The client tasks run on other
+         worker threads: from this instant they can see the broadcast, be told to go and send their -1,
+         BEFORE the arm continues with [drain_tx.send(0)] (SigintQ). *)
       if negb (main_ok st) then None else
       if admin_only st then Some st else
-      Some (mkS true (total st) (if tzero st then TDead else TArmed) (exit_q st) (wedged st) (exited st)
-                (queue st ++ [0]) (map (fun c => set_pend c true) (clients st))
-                (tzero st) (leaked st) (zero_sends st) (log st))
+      Some (mkS true (total st) (tmr st) (exit_q st) (wedged st) (exited st) (queue st)
+                (map (fun c => set_pend c true) (clients st))
+                (tzero st) (qcap st) (leaked st) (zero_sends st) (log st) true)
   | Sigterm =>
       if negb (main_ok st) then None else Some (with_exit st ByTerm)
   | Accept k m =>
@@ -264,21 +277,21 @@ Definition step (st : state) (e : event) : option state :=
           if (t =? 0) && admin_only st then
             match exit_q st with
             | None => Some (mkS (admin_only st) t (tmr st) (Some ByZero) false (exited st) q (clients st)
-                                (tzero st) (leaked st) (S (zero_sends st)) (log st))
+                                (tzero st) (qcap st) (leaked st) (S (zero_sends st)) (log st) (mid_sigint st))
             | Some _ => Some (mkS (admin_only st) t (tmr st) (exit_q st) true (exited st) q (clients st)
-                                  (tzero st) (leaked st) (zero_sends st) (log st))
+                                  (tzero st) (qcap st) (leaked st) (zero_sends st) (log st) (mid_sigint st))
             end
           else Some (mkS (admin_only st) t (tmr st) (exit_q st) (wedged st) (exited st) q (clients st)
-                         (tzero st) (leaked st) (zero_sends st) (log st))
+                         (tzero st) (qcap st) (leaked st) (zero_sends st) (log st) (mid_sigint st))
       end
   | TimerFire =>
       match tmr st with
       | TArmed =>
           match exit_q st with
           | None => Some (mkS (admin_only st) (total st) TSent (Some ByTimer) (wedged st) (exited st) (queue st)
-                              (clients st) (tzero st) (leaked st) (zero_sends st) (log st))
+                              (clients st) (tzero st) (qcap st) (leaked st) (zero_sends st) (log st) (mid_sigint st))
           | Some _ => Some (mkS (admin_only st) (total st) TBlocked (exit_q st) (wedged st) (exited st) (queue st)
-                                (clients st) (tzero st) (leaked st) (zero_sends st) (log st))
+                                (clients st) (tzero st) (qcap st) (leaked st) (zero_sends st) (log st) (mid_sigint st))
           end
       | _ => None
       end
@@ -288,6 +301,18 @@ Definition step (st : state) (e : event) : option state :=
       | Some x => Some (with_exit st x)
       | None => None
       end
+  | SigintQ =>
+      (* main.rs:238-254: [drain_tx.send(0).await], then spawn the timer task *)
+      if negb (mid_sigint st) || wedged st then None else
+      if (qcap st <=? length (queue st))%nat then
+        (* the send waits for a free slot; the only receiver is this suspended loop: for ever, and the
+           timer task is never spawned *)
+        Some (mkS (admin_only st) (total st) (tmr st) (exit_q st) true (exited st) (queue st) (clients st)
+                  (tzero st) (qcap st) (leaked st) (zero_sends st) (log st) false)
+      else
+        Some (mkS (admin_only st) (total st) (if tzero st then TDead else TArmed) (exit_q st) (wedged st) (exited st)
+                  (queue st ++ [0]) (clients st)
+                  (tzero st) (qcap st) (leaked st) (zero_sends st) (log st) false)
   end end.
 
 Fixpoint run (st : state) (tr : list event) : option state :=
@@ -296,7 +321,7 @@ Fixpoint run (st : state) (tr : list event) : option state :=
   | e :: r => match step st e with Some st' => run st' r | None => None end
   end.
 
-Definition reachable (st : state) : Prop := exists tz tr, run (init tz) tr = Some st.
+Definition reachable (st : state) : Prop := exists tz cap tr, run (init tz cap) tr = Some st.
 
 (** ** Derived quantities *)
 
@@ -337,23 +362,39 @@ Fixpoint drain_all (fuel : nat) (st : state) : list event :=
 
 (** events the system performs by itself from [st], in the eager order: polls, then drain, then exit *)
 Definition settle (st : state) : list event :=
-  let polls := map Poll (pollable (clients st) 0) in
-  let st1 := run_total st polls in
+  let arm := match step st SigintQ with Some _ => [SigintQ] | None => [] end in
+  let st0 := run_total st arm in
+  let polls := map Poll (pollable (clients st0) 0) in
+  let st1 := run_total st0 polls in
   let drains := drain_all (S (length (queue st1))) st1 in
   let st2 := run_total st1 drains in
   let ex := match step st2 ExitDeliver with Some _ => [ExitDeliver] | None => [] end in
-  polls ++ drains ++ ex.
+  arm ++ polls ++ drains ++ ex.
+
+(** the adversarial order for a SIGINT: the clients that see the broadcast are told to go and send
+    their -1 BEFORE the arm queues its 0; the drain arm is polled before the exit arm *)
+Definition settle_adv (st : state) : list event :=
+  let polls := map Poll (pollable (clients st) 0) in
+  let st0 := run_total st polls in
+  let arm := match step st0 SigintQ with Some _ => [SigintQ] | None => [] end in
+  let st1 := run_total st0 arm in
+  let drains := drain_all (S (length (queue st1))) st1 in
+  let st2 := run_total st1 drains in
+  let ex := match step st2 ExitDeliver with Some _ => [ExitDeliver] | None => [] end in
+  polls ++ arm ++ drains ++ ex.
 
 (** Script operations of the harness scenarios; each expands to model events. *)
 Inductive sop : Type :=
 | SEv (e : event)              (* the event, then whatever the system does by itself *)
 | SRaw (e : event)             (* the event alone (explicit schedules) *)
+| SAdv (e : event)             (* the event, then the adversarial order of what follows *)
 | SWaitTimer.                  (* the scenario waits longer than shutdown_timeout *)
 
 Definition expand (st : state) (o : sop) : list event :=
   match o with
   | SRaw e => [e]
   | SEv e => e :: (match step st e with Some st' => settle st' | None => [] end)
+  | SAdv e => e :: (match step st e with Some st' => settle_adv st' | None => [] end)
   | SWaitTimer =>
       match step st TimerFire with
       | Some st' => TimerFire :: settle st'
